@@ -391,19 +391,21 @@ def case_lazy_eager(cs):
     for k in fa:
         if k not in fb:
             return common.result(common.VIOL, sig=sig, nt=True, cnt=cnt, mech="c19_lazy_differs_from_eager", witness=dict(w, node=k, what="missing in eager run"), sample=sample)
-    # arbitrary declaration order: equal up to floating summation order
-    shuffled = to_eager(lazy, {})
-    ins.reset()
-    c = w2.run(shuffled)
-    if c.exc is not None:
-        return common.result(common.VIOL, sig=sig, nt=True, cnt=cnt, mech="c19_eager_run_raises", witness=dict(w, exception=str(c.exc)[:160], order="declared"), sample=sample)
-    fc = mon2.all_frames(c.root)
-    d = ins.first_frame_diff({k: v for k, v in fa.items() if k in fc}, {k: v for k, v in fc.items() if k in fa}, rel=1e-9)
-    if d:
-        if spec["integer"]:
-            # an integer sizing decision may sit on a rounding tie when sums are taken in another order
-            return common.result(common.INC, sig=sig, cnt=cnt, why="declared-order differential differs with integer positions (possible rounding tie)", sample=sample)
-        return common.result(common.VIOL, sig=sig, nt=True, cnt=cnt, mech="c19_lazy_differs_from_eager_unordered", witness=dict(w, **d), sample=sample)
+    # arbitrary declaration order: equal up to floating summation order. Only asserted for cost-free specs: with fees or spreads the
+    # order in which children are traded is economically visible (each fee changes the base the next child is sized on), and
+    # order-independence is not part of the statement.
+    if spec["comm"] == "none" and "bidoffer" not in spec["extras"] and not spec["integer"]:
+        shuffled = to_eager(lazy, {})
+        ins.reset()
+        c = w2.run(shuffled)
+        if c.exc is not None:
+            return common.result(common.VIOL, sig=sig, nt=True, cnt=cnt, mech="c19_eager_run_raises", witness=dict(w, exception=str(c.exc)[:160], order="declared"), sample=sample)
+        fc = mon2.all_frames(c.root)
+        scale = float(np.nanmax(np.abs(a.root.data["value"].to_numpy(dtype=float)))) if len(a.root.data) else 1.0
+        common.bump(cnt, "declared_order_pairs")
+        d = ins.first_frame_diff({k: v for k, v in fa.items() if k in fc}, {k: v for k, v in fc.items() if k in fa}, rel=1e-9, abs_tol=1e-9 * (1 + scale))
+        if d:
+            return common.result(common.VIOL, sig=sig, nt=True, cnt=cnt, mech="c19_lazy_differs_from_eager_unordered", witness=dict(w, **d), sample=sample)
     return common.result(common.HELD, sig=sig, nt=ntr >= 1, cnt=cnt, sample=sample)
 
 
